@@ -1,6 +1,6 @@
 (* Judge of the L0 tie: the whole-formatter model Fmt0.format0 (extracted) against the binary, byte for byte; and the source
    text against the tree (erasure and comment census), so that the theorems about the tree speak about the text that was formatted.
-   L0 <id> <windows> <spaces> <indent width> <quote style>/<call_parentheses>/<space_after_function_names>/<collapse_simple_statement> <tree> <source hex> <status> <output hex> <hex of the library's second pass on that output, or its status> *)
+   L0 <id> <windows> <spaces> <indent width> <quote style>/<call_parentheses>/<space_after_function_names>/<collapse_simple_statement> <tree> <source hex> <status> <output hex> <hex of the library's second pass on that output, or its status> <hex of its third pass where the second differs, else -> *)
 open Util
 open Fmt0
 let uop = function "-" -> Expr.Neg | "not" -> Expr.Not | "#" -> Expr.Len | "~" -> Expr.BNot | s -> failwith ("uop " ^ s)
@@ -46,7 +46,7 @@ let records = ref 0 and bad = ref 0 and changed = ref 0 and samples = ref 0 and 
 let premise = ref 0 and nonidem = ref 0 and predicted = ref 0
 let report k id = incr bad; Printf.printf "BAD %s %s\n" k id
 let handle line = match words line with
-  | ["L0"; id; win; spaces; width; style; tree; src; status; out; out2] ->
+  | ["L0"; id; win; spaces; width; style; tree; src; status; out; out2; out3] ->
     incr records;
     if status <> "ok" then report ("format-" ^ status) id
     else begin
@@ -83,6 +83,7 @@ let handle line = match words line with
             let o2 = unhex out2 and model2 = format0 cfg (norm0 cfg p) in
             if o2 <> o then incr nonidem;
             if model2 <> model then (incr predicted; Printf.printf "NONIDEM %s\n" id);
+            if out3 <> "-" && out3 <> out2 then report "third-pass-differs-from-the-second" id;
             if model2 <> o2 then report "second-pass-differs-from-the-L0-model" id
             else if gf && o2 <> o then report "second-pass-differs-under-the-premise-of-the-idempotence-theorem" id
           end
